@@ -1,7 +1,7 @@
 use crate::encode::Encoder;
 
 impl Encoder {
-    impl_encode_rr_domain_name!(DNAME, target, rr_dname);
+    impl_encode_rr_domain_name_uncompressed!(DNAME, target, rr_dname);
 }
 
 impl_encode_rr!(DNAME, rr_dname);
